@@ -43,7 +43,7 @@ func (e *Exec) floatTerm(x Float) *Term {
 		return x.S
 	}
 	if e.mode == ModeINT {
-		t := &Term{Name: realLit(x.C), Sort: Sort{K: SReal}}
+		t := &Term{Name: realLit(x.C), Sort: Sort{K: SReal}, RLo: x.C, RHi: x.C, RBnd: true}
 		if x.C == math.Trunc(x.C) && math.Abs(x.C) < float64(two53) {
 			t.Int = true
 			it := e.intTerm(Int{W: 64, Sg: true, C: int64(x.C)})
@@ -63,9 +63,22 @@ func (e *Exec) round(v *Term) *Term {
 	eps := "(/ 1.0 9007199254740992.0)"
 	e.sol.Send("(assert (<= (- " + y.Name + " " + v.Name + ") (* " + eps + " " + av.Name + ")))")
 	e.sol.Send("(assert (<= (- " + v.Name + " " + y.Name + ") (* " + eps + " " + av.Name + ")))")
-	fl := e.def(Sort{K: SReal}, "(to_real (to_int "+v.Name+"))")
+	fi := e.floorReal(v)
+	fl := &Term{Name: "(to_real " + fi.Name + ")", Sort: Sort{K: SReal}}
 	e.sol.Send("(assert (<= " + fl.Name + " " + y.Name + "))")
 	e.sol.Send("(assert (<= " + y.Name + " (+ " + fl.Name + " 1.0)))")
+	if v.RBnd {
+		y.RLo, y.RHi, y.RBnd = math.Floor(v.RLo), math.Floor(v.RHi)+1, true
+		// tighter: relative error
+		lo2 := v.RLo - math.Abs(v.RLo)*1e-15
+		hi2 := v.RHi + math.Abs(v.RHi)*1e-15
+		if lo2 > y.RLo {
+			y.RLo = lo2
+		}
+		if hi2 < y.RHi {
+			y.RHi = hi2
+		}
+	}
 	return y
 }
 
@@ -86,8 +99,14 @@ func (e *Exec) intToFloat(x Int, t types.Type) Value {
 		return Float{W: 64, C: float64(uint64(x.C))}
 	}
 	if e.mode == ModeINT {
-		lo, hi, ok := x.ival()
+		lo, hi, ok := e.ival(x)
 		ex := &Term{Name: "(to_real " + x.S.Name + ")", Sort: Sort{K: SReal}}
+		if ok {
+			ex.RLo, ex.RHi, ex.RBnd = float64(lo), float64(hi), true
+			if lo < -two53 || hi > two53 {
+				ex.RLo, ex.RHi = ex.RLo*(1+1e-15)-1, ex.RHi*(1+1e-15)+1
+			}
+		}
 		if ok && lo > -two53 && hi < two53 {
 			ex.Int = true
 			ex.IntT = x.S
@@ -114,7 +133,14 @@ func (e *Exec) floatToInt(x Float, w uint8, sg bool) Value {
 			it := x.S.IntT
 			return e.wrapINT(it, w, sg, it.Lo, it.Hi, it.Bnd)
 		}
+		if x.S.RBnd && x.S.RLo >= 0 && x.S.RHi < 1e18 {
+			t := e.floorReal(x.S)
+			return e.wrapINT(t, w, sg, t.Lo, t.Hi, t.Bnd)
+		}
 		t := e.def(Sort{K: SInt}, fmt.Sprintf("(ite (>= %s 0.0) (to_int %s) (- (to_int (- %s))))", x.S.Name, x.S.Name, x.S.Name))
+		if x.S.RBnd && math.Abs(x.S.RLo) < 1e18 && math.Abs(x.S.RHi) < 1e18 {
+			return e.wrapINT(t, w, sg, int64(math.Trunc(x.S.RLo))-1, int64(math.Trunc(x.S.RHi))+1, true)
+		}
 		return e.wrapINT(t, w, sg, 0, 0, false)
 	}
 	op := "fp.to_ubv"
@@ -195,6 +221,31 @@ func (e *Exec) floatBin(op token.Token, x, y Float) Value {
 			panic(unsupported("float op " + op.String()))
 		}
 		ex := e.def(Sort{K: SReal}, "("+sop+" "+tx.Name+" "+ty.Name+")")
+		if tx.RBnd && ty.RBnd {
+			var c []float64
+			switch op {
+			case token.ADD:
+				c = []float64{tx.RLo + ty.RLo, tx.RHi + ty.RHi}
+			case token.SUB:
+				c = []float64{tx.RLo - ty.RHi, tx.RHi - ty.RLo}
+			case token.MUL:
+				c = []float64{tx.RLo * ty.RLo, tx.RLo * ty.RHi, tx.RHi * ty.RLo, tx.RHi * ty.RHi}
+			case token.QUO:
+				if ty.RLo > 0 || ty.RHi < 0 {
+					c = []float64{tx.RLo / ty.RLo, tx.RLo / ty.RHi, tx.RHi / ty.RLo, tx.RHi / ty.RHi}
+				}
+			}
+			if c != nil {
+				lo, hi := c[0], c[0]
+				for _, v := range c {
+					lo, hi = math.Min(lo, v), math.Max(hi, v)
+				}
+				if !math.IsNaN(lo) && !math.IsInf(lo, 0) && !math.IsNaN(hi) && !math.IsInf(hi, 0) {
+					// outward slack for the engine's own rounding
+					ex.RLo, ex.RHi, ex.RBnd = lo-math.Abs(lo)*1e-15, hi+math.Abs(hi)*1e-15, true
+				}
+			}
+		}
 		// integer-valued operands with a small integer result are exact
 		if tx.Int && ty.Int && tx.IntT != nil && ty.IntT != nil && op != token.QUO {
 			a := Int{W: 64, Sg: true, S: tx.IntT}
@@ -205,8 +256,8 @@ func (e *Exec) floatBin(op token.Token, x, y Float) Value {
 			if ty.IntT.Bnd && ty.IntT.Lo == ty.IntT.Hi {
 				b = Int{W: 64, Sg: true, C: ty.IntT.Lo}
 			}
-			la, ha, oka := a.ival()
-			lb, hb, okb := b.ival()
+			la, ha, oka := e.ival(a)
+			lb, hb, okb := e.ival(b)
 			if oka && okb && la > -(1<<26) && ha < 1<<26 && lb > -(1<<26) && hb < 1<<26 {
 				r := e.intBin(op, a, b)
 				if r.S == nil {
@@ -300,8 +351,11 @@ func (e *Exec) floatFloor(x Float) Float {
 		if x.S.Int {
 			return x
 		}
-		it := e.def(Sort{K: SInt}, "(to_int "+x.S.Name+")")
+		it := e.floorReal(x.S)
 		t := &Term{Name: "(to_real " + it.Name + ")", Sort: Sort{K: SReal}, Int: true, IntT: it}
+		if it.Bnd {
+			t.RLo, t.RHi, t.RBnd = float64(it.Lo), float64(it.Hi), true
+		}
 		return Float{W: 64, S: t}
 	}
 	return Float{W: 64, S: e.def(Sort{K: SFP, W: 64}, "(fp.roundToIntegral RTN "+x.S.Name+")")}
